@@ -481,6 +481,16 @@ def rule_runquery(P) -> RuleResult:
                 res.fail(fi.fq, 'runquery:execute', f'{label}: the statement must be executed once on a connection over the given entries and '
                          f'options', loc(fi))
                 continue
+            # the text executed is query.format(*args) for every args, the empty tuple included: the documented contract is new-style
+            # formatting, so `{{3}}` in the text given always means `{3}` in the statement
+            ex_args = seen['execute'][0]
+            if a.vararg and not (len(ex_args) >= 1 and isinstance(ex_args[0], T) and ex_args[0].op == 'call' and ex_args[0].args[0] == 'QUERY.format'
+                                 and tuple(ex_args[0].args[1]) in ((), (T('star', (T('tuple', ()),)),))):
+                good = False
+                res.fail(fi.fq, 'runquery:format', f'{label}: called without formatting arguments run_query must still execute query.format(): '
+                         f'doubled braces in the text (`[A-Z]{{{{3}}}}` in an account pattern) stand for single ones; it executes '
+                         f'`{show(ex_args[0])[:60] if ex_args else "nothing"}`', loc(fi))
+                continue
             if numberify:
                 nb = seen.get('numberify', [])
                 fmt = T('call', (f'{show(DCTX)}.build', (), ()))
